@@ -80,7 +80,12 @@ class BreakerFlow(Client):
             return False
         if fi.cls is not None and fi.cls.qual == CB:
             return False
-        return fi.module.name in DESCEND_MODULES
+        if fi.module.name in DESCEND_MODULES:
+            return True
+        from .runner_flow import KNOWN_MODULES
+
+        # code moved into a module that did not exist when the rules were written
+        return fi.module.name.startswith("redress.policy") and fi.module.name not in KNOWN_MODULES
 
     # ---- fault model
     def callback_kinds(self, category: str, ev: Event) -> Iterable[str]:
